@@ -178,18 +178,21 @@ func ToCommandLine(wf WireFormat, resolveIds bool) (rule string, err error) {
 	// When such a rule is printed with `auditctl -l`, it will show as
 	// "-F arch=b64", which is wrong.
 	// This code will print the real value, "aarch64".
+	lastArch := -1
 	if fieldIdx, found := existingFields[archField]; found {
+		lastArch = fieldIdx
 		r.arch, err = getDisplayArch(r.values[fieldIdx])
 		if err != nil {
 			return "", err
 		}
-		arguments = append(arguments, "-F", fmt.Sprintf("arch=%s", r.arch))
 	}
 
-	// Parse syscalls
+	// Parse syscalls. They are printed right after the last arch filter, which
+	// is the one they are resolved against, and the filters keep their order.
+	var syscallArgs []string
 	if r.allSyscalls {
 		if r.flags == exitFilter || r.flags == entryFilter {
-			arguments = append(arguments, "-S", "all")
+			syscallArgs = []string{"-S", "all"}
 		}
 	} else if len(r.syscalls) > 0 {
 		arch, err := getRuntimeArch()
@@ -223,7 +226,10 @@ func ToCommandLine(wf WireFormat, resolveIds bool) (rule string, err error) {
 			}
 		}
 
-		arguments = append(arguments, "-S", strings.Join(list, ","))
+		syscallArgs = []string{"-S", strings.Join(list, ",")}
+	}
+	if lastArch < 0 {
+		arguments = append(arguments, syscallArgs...)
 	}
 
 	// Parse fields
@@ -235,7 +241,14 @@ func ToCommandLine(wf WireFormat, resolveIds bool) (rule string, err error) {
 		}
 		switch fieldID {
 		case archField:
-			// arch already handled
+			display, err := getDisplayArch(r.values[idx])
+			if err != nil {
+				return "", err
+			}
+			arguments = append(arguments, fmt.Sprintf("-F arch%s%s", op, display))
+			if idx == lastArch {
+				arguments = append(arguments, syscallArgs...)
+			}
 		case fieldCompare:
 			fieldIds, found := reverseComparisonsTable[comparison(r.values[idx])]
 			if !found {
